@@ -38,10 +38,12 @@ def run(ctx):
     ext_f = img.methods.get("ext")
     if ext_f is None:
         raise AnalysisError("anchor vanished: Image.ext")
+    from sa.paths import tables_by_use
+
     ext_map = None
-    for n in walk_own(ext_f.node):
-        if isinstance(n, ast.Assign) and isinstance(n.value, ast.Dict):
-            ext_map = prog.const(n.value, ext_f.module)
+    for v, node_ in tables_by_use(prog, ext_f):
+        if all(isinstance(k, str) and isinstance(x, str) for k, x in v.items()):
+            ext_map = v
     if not isinstance(ext_map, dict) or not ext_map:
         raise AnalysisError("Image.ext: format table does not fold")
     spec = prog.modules.get("pptx.opc.spec")
